@@ -219,7 +219,7 @@ manifest = {
         {"name": "DL", "path": "vf/detloop.py", "kind_free_text": "clock-free deterministic asyncio loop executed symbolically by CrossHair", "serves_properties": [p for p in ("C04", "C05", "C06", "C07", "C08", "C09", "C10", "C12", "C13", "C14", "C15", "C16", "C17") if p in CHECKS]},
     ],
     "checks": [CHECKS[p] for p in ALL if p in CHECKS],
-    "notes": "Solver-based checking of the real code (CrossHair + z3). See DESIGN.md. Exit 2 = harness error (never a violation).",
+    "notes": "Solver-based checking of the real code (CrossHair + z3; source-to-SMT translators PZ/GS/TM, regex model with character classes from the live re engine). See DESIGN.md (sections 9: defects found and repaired by 12 fix: commits in /repo, all recorded as fixed in known_findings.json, no open finding; 11: bounds; 13: 160 seeded changes and which check reports each). Exit 2 = harness error (never a violation). Quick tier: 20 s - 4 min per property on 16 cores; thorough tier: 15 s - 20 min per property (deeper bounds of the same obligations + cvc5 cross-check of the z3 lemmas).",
     "not_applicable": [
         {"property_id": p, "reason": NOT_BUILT.get(p, "check not built yet in this session (planned: see DESIGN.md §6); not claimed until its quick command has run green end-to-end")}
         for p in ALL
